@@ -368,8 +368,35 @@ def write_evidence(prop_id, mod, tier, seed, merged, wall, violations, extra=Non
     return path
 
 
+def _group_is_ours(pgid):
+    """True if some live process of process group `pgid` carries THIS orchestrator's marker in its environment.  Once a
+    worker has been reaped its pid - which is also its group id - can be re-used by an unrelated session leader (another
+    check running at the same time): never send that group a signal."""
+    marker = f"HSVERIF_ORCH={os.getpid()}".encode()
+    try:
+        pids = [d for d in os.listdir("/proc") if d.isdigit()]
+    except OSError:
+        return True
+    found = False
+    for d in pids:
+        try:
+            with open(f"/proc/{d}/stat", "rb") as f:
+                fields = f.read().rsplit(b")", 1)[1].split()
+            if int(fields[2]) != pgid:
+                continue
+            found = True
+            with open(f"/proc/{d}/environ", "rb") as f:
+                if marker in f.read().split(b"\0"):
+                    return True
+        except (OSError, IndexError, ValueError):
+            continue
+    return False if found else False
+
+
 def _kill_group(p):
     import signal
+    if p.poll() is not None and not _group_is_ours(p.pid):
+        return      # reaped, and whatever owns that group id now (if anything) is not ours
     try:
         os.killpg(p.pid, signal.SIGKILL)
     except (ProcessLookupError, PermissionError, OSError):
@@ -421,7 +448,7 @@ def orchestrate(prop_id, tier, seed, nshards=None, budget=None):
         os._exit(2)
     signal.signal(signal.SIGTERM, _on_signal)
     signal.signal(signal.SIGINT, _on_signal)
-    env = dict(os.environ, PYTHONHASHSEED="0", HSVERIF_SCRATCH=base)
+    env = dict(os.environ, PYTHONHASHSEED="0", HSVERIF_SCRATCH=base, HSVERIF_ORCH=str(os.getpid()))
     # every second shard runs under a NON-UTF-8 locale (preferred encoding ASCII): text files the store opens without an
     # explicit encoding, or strings it encodes with the locale's codec, then differ from the published layout as soon as an
     # identifier is not ASCII.  stdio stays UTF-8 so that reports can be printed.
